@@ -9,11 +9,12 @@ McParents == [h \in McH |-> CASE h = "dA" -> {"vmd"} [] h = "dB" -> {"ch", "dA"}
                               [] h = "ch" -> {"vmd"} [] OTHER -> {}]
 McCtxOf == [c \in McCH |-> "pc"]
 \* simulation universe: adds alert / operation / real-time-sample leaves (state transactions of every kind)
-SimH == McH \cup {"al", "op", "rt", "asy", "sco"}
-SimKind == [h \in SimH |-> CASE h \in {"m1", "dB"} -> "metric" [] h = "pc" -> "ctx" [] h \in {"al", "asy"} -> "alert"
+SimH == McH \cup {"al", "op", "rt", "asy", "sco", "m2"}
+McOtherMds == {"m2", "sco", "asy"}
+SimKind == [h \in SimH |-> CASE h \in {"m1", "dB", "m2"} -> "metric" [] h = "pc" -> "ctx" [] h \in {"al", "asy"} -> "alert"
                               [] h = "op" -> "op" [] h = "rt" -> "rt" [] OTHER -> "comp"]
 SimInitParent == [h \in SimH |-> CASE h = "vmd" -> "ext" [] h = "ch" -> "vmd" [] h = "m1" -> "ch" [] h = "pc" -> "ext"
-                                   [] h = "op" -> "ext" [] h \in {"al", "rt", "asy", "sco"} -> "vmd" [] OTHER -> "none"]
+                                   [] h = "op" -> "ext" [] h \in {"al", "rt", "asy", "sco"} -> "vmd" [] h = "m2" -> "ch" [] OTHER -> "none"]
 SimParents == [h \in SimH |-> CASE h = "dA" -> {"vmd"} [] h = "dB" -> {"ch", "dA"} [] h = "m1" -> {"ch"}
                                 [] h = "ch" -> {"vmd"} [] OTHER -> {}]
 McRemovable == McH
